@@ -221,6 +221,43 @@ def apiStep (s : Option ApiSt) (toks : List String) : Option ApiSt × List Strin
         | none => (s, ["bad-op"])
       | _ => (s, ["bad-op"])
     | _, _ => (s, ["bad-op"])
+  -- `call2 CH CH2 x-…`: the `Exchange` handle the call is made on comes from channel CH, the one
+  -- passed as argument from channel CH2; the method goes out on CH (the handle's own channel)
+  | "call2" :: ch :: ch2 :: op :: args, some st =>
+    match ch.toNat?, ch2.toNat?, args.mapM parseAField with
+    | some ch, some ch2, some [.str me, .str other, .str rk, .table t, .bool nw] =>
+      let decl := fun (nm : Bytes) => if nm = [] then [] else [Op.exchangeDeclareNowait direct nm ⟨false, false, false, emptyTable⟩]
+      let last : Option Op :=
+        if op = "x-bind-to-source" then some (.exchangeBind me other rk t nw)
+        else if op = "x-bind-to-destination" then some (.exchangeBind other me rk t nw)
+        else if op = "x-unbind-from-source" then some (.exchangeUnbind me other rk t nw)
+        else if op = "x-unbind-from-destination" then some (.exchangeUnbind other me rk t nw)
+        else none
+      match last, lookupC ch st.chans, lookupC ch2 st.chans with
+      | some lastOp, some c, some _ =>
+        -- handle on CH
+        let (c1, r1) := runOps c (decl me)
+        let st1 := { st with chans := setC ch c1 st.chans }
+        let isErr := fun (r : Ret) => match r with | .err _ => true | .panic => true | _ => false
+        if isErr r1 then let (st2, lines) := flushSent st1; (some st2, showRet r1 :: lines)
+        else
+          -- handle on CH2
+          match lookupC ch2 st1.chans with
+          | none => (s, ["bad-op"])
+          | some d =>
+            let (d1, r2) := runOps d (decl other)
+            let st2 := { st1 with chans := setC ch2 d1 st1.chans }
+            if isErr r2 then let (st3, lines) := flushSent st2; (some st3, showRet r2 :: lines)
+            else
+              match lookupC ch st2.chans with
+              | none => (s, ["bad-op"])
+              | some c2 =>
+                let (c3, r3) := run c2 lastOp
+                let st3 := { st2 with chans := setC ch c3 st2.chans }
+                let (st4, lines) := flushSent st3
+                (some st4, showRet r3 :: lines)
+      | _, _, _ => (s, ["bad-op"])
+    | _, _, _ => (s, ["bad-op"])
   | "call" :: ch :: op :: args, some st =>
     match ch.toNat? with
     | some ch =>
